@@ -1662,6 +1662,14 @@ pub fn query(input: &QueryContainer) -> Result<Query, CompileError> {
         .parse(input)
         .map_err(|_| CompileError::Parse)?;
 
+    if !input.fragment().trim().is_empty() && input.extra.get_error_count() == 0 {
+        input
+            .extra
+            .report_error_for("unexpected input after the end of the query")
+            .with_code_range(input.to_range(), "")
+            .send_report();
+    }
+
     if input.extra.get_error_count() > 0 {
         Err(CompileError::Parse)
     } else {
